@@ -39,6 +39,15 @@ var Shapes = map[string]ShapeInfo{
 	"c3r": {"c3r", 2, 2, 3, []bool{true, true}},
 }
 
+func init() {
+	// p1x<k>: p1 with k extra multiplication constraints, so that nbPublic+nbConstraints sweeps over
+	// sizes below, at and above a power of two (domain-size / padding edge cases)
+	for k := 0; k < 8; k++ {
+		n := fmt.Sprintf("p1x%d", k)
+		Shapes[n] = ShapeInfo{n, 1, 2, 0, []bool{true}}
+	}
+}
+
 func ShapeNames() []string {
 	return []string{"p1", "p2u", "c1s", "c1p", "c1po", "c2", "c2i", "c3", "c3r"}
 }
@@ -94,6 +103,14 @@ func (c *ShapeCircuit) Define(api frontend.API) error {
 		}
 		api.AssertIsDifferent(v, 0)
 		return v, nil
+	}
+	if len(kind) == 4 && kind[:3] == "p1x" {
+		acc := c.Y[1]
+		for k := 0; k < int(kind[3]-'0'); k++ {
+			acc = api.Mul(acc, c.Y[1])
+		}
+		api.AssertIsDifferent(acc, 0)
+		return nil
 	}
 	switch kind {
 	case "p1", "p2u":
